@@ -5,13 +5,14 @@
 //! The single writer (main thread) runs a sequence of operations over
 //! `A` add a seal channel, `B` add an open channel, `R` remove the oldest live channel,
 //! `L` remove the newest live channel, `N` remove an id that does not exist,
-//! `I` `remove_if(id is even)`, `C` `remove_all`
+//! `I` `remove_if(id is even)` (matches some, all or none of the channels depending on the table),
+//! `M` `remove_if(nothing)`, `T` `remove_if(everything)`, `C` `remove_all`
 //! on a table of capacity 2 or 3. A reference list (a `Vec` with the same append / swap-remove
 //! discipline) says which sets the writer produces.
 //!
 //! * family 0 (sequential, no readers): every operation sequence up to a length; after every
 //!   operation both copies are locked and compared.
-//! * family 1 (loom): writer sequences of length <= 2 or 3 over `{A, R, I, C}` from a table that
+//! * family 1 (loom): writer sequences of length <= 2 or 3 over `{A, R, I, M, C}` from a table that
 //!   already holds two channels, against one or two reader threads that consult the table
 //!   (lock the list at `read_off` like `seal`/`open`/`exists` do) and call `exists`.
 //!
@@ -20,7 +21,8 @@
 //!   `len <= cap`); `exists(id)` is true for an id in every produced set and false for an id in
 //!   none of them;
 //! * after each writer operation has returned, both copies hold the same channels in the same
-//!   order with equal generations, and they are the reference list;
+//!   order with equal generations, they are the reference list, and `read_off` and `write_off`
+//!   name different copies;
 //! * successful `add`s return strictly increasing ids; `add` fails with out-of-space exactly when
 //!   the reference list is full; `AranyaState::exists` agrees with the reference list.
 
@@ -42,6 +44,10 @@ pub enum WOp {
     RemoveNewest,
     RemoveMissing,
     RemoveIfEven,
+    /// `remove_if` with a predicate that matches no channel
+    RemoveIfNone,
+    /// `remove_if` with a predicate that matches every channel
+    RemoveIfEvery,
     RemoveAll,
 }
 
@@ -54,6 +60,8 @@ impl WOp {
             WOp::RemoveNewest => 'L',
             WOp::RemoveMissing => 'N',
             WOp::RemoveIfEven => 'I',
+            WOp::RemoveIfNone => 'M',
+            WOp::RemoveIfEvery => 'T',
             WOp::RemoveAll => 'C',
         }
     }
@@ -141,12 +149,27 @@ fn writer_op(w: &<Shm as Backend>::Writer, r: &mut Reference, op: WOp, rng: &Det
                 stats::count("remove_skipped_empty_table");
             }
         }
-        WOp::RemoveIfEven => {
-            if let Err(e) = w.remove_if(|p| p.local_channel_id.to_u64() % 2 == 0) {
+        WOp::RemoveIfEven | WOp::RemoveIfNone | WOp::RemoveIfEvery => {
+            let pred = move |id: u64| match op {
+                WOp::RemoveIfEven => id % 2 == 0,
+                WOp::RemoveIfNone => false,
+                _ => true,
+            };
+            let matching = r.list.iter().filter(|id| pred(**id)).count();
+            if let Err(e) = w.remove_if(|p| pred(p.local_channel_id.to_u64())) {
                 oracle_fail!("remove_if failed with {e}");
             }
-            r.remove_if(|id| id % 2 == 0);
             stats::count("remove_if_done");
+            stats::count(if r.list.is_empty() {
+                "remove_if_on_empty_table"
+            } else if matching == 0 {
+                "remove_if_matching_none_on_non_empty_table"
+            } else if matching == r.list.len() {
+                "remove_if_matching_all"
+            } else {
+                "remove_if_matching_some"
+            });
+            r.remove_if(pred);
         }
         WOp::RemoveAll => {
             if let Err(e) = w.remove_all() {
@@ -161,7 +184,10 @@ fn writer_op(w: &<Shm as Backend>::Writer, r: &mut Reference, op: WOp, rng: &Det
 
 /// No writer operation is in progress: both copies must be the reference list.
 fn check_quiescent(checker: &crate::Client<<Shm as Backend>::Reader>, w: &<Shm as Backend>::Writer, r: &Reference, ever: &BTreeSet<u64>) {
-    let (rd, wr) = verif_shm::both_copies(checker.state());
+    let (rd, wr, same_copy) = verif_shm::both_copies(checker.state());
+    if same_copy {
+        oracle_fail!("read_off and write_off name the same copy while no writer operation is in progress");
+    }
     if rd.ids != wr.ids {
         oracle_fail!("the two copies differ while no writer operation is in progress: read copy {:?}, write copy {:?}", rd.ids, wr.ids);
     }
@@ -227,6 +253,8 @@ fn body(cap: usize, preload: usize, wprog: &[WOp], rprogs: &[Vec<ROp>]) {
                 }
                 WOp::RemoveMissing => {}
                 WOp::RemoveIfEven => sim.remove_if(|id| id % 2 == 0),
+                WOp::RemoveIfNone => {}
+                WOp::RemoveIfEvery => sim.list.clear(),
                 WOp::RemoveAll => sim.list.clear(),
             }
             produced.push(sim.set());
@@ -324,12 +352,22 @@ pub fn scenarios(params: &[i64]) -> Vec<Scenario> {
     let shards = params.get(4).copied().unwrap_or(1).max(1) as usize;
     let mut all: Vec<(usize, Vec<WOp>, Vec<Vec<ROp>>)> = Vec::new();
     if family == 0 {
-        let alphabet = [WOp::AddSeal, WOp::AddOpen, WOp::RemoveOldest, WOp::RemoveNewest, WOp::RemoveMissing, WOp::RemoveIfEven, WOp::RemoveAll];
+        let alphabet = [
+            WOp::AddSeal,
+            WOp::AddOpen,
+            WOp::RemoveOldest,
+            WOp::RemoveNewest,
+            WOp::RemoveMissing,
+            WOp::RemoveIfEven,
+            WOp::RemoveIfNone,
+            WOp::RemoveIfEvery,
+            WOp::RemoveAll,
+        ];
         for s in sequences(&alphabet, max_len, 1) {
             all.push((0, s, Vec::new()));
         }
     } else {
-        let alphabet = [WOp::AddSeal, WOp::RemoveOldest, WOp::RemoveIfEven, WOp::RemoveAll];
+        let alphabet = [WOp::AddSeal, WOp::RemoveOldest, WOp::RemoveIfEven, WOp::RemoveIfNone, WOp::RemoveAll];
         let rprogs: Vec<Vec<Vec<ROp>>> = if family == 1 {
             vec![vec![vec![ROp::Consult, ROp::Consult]], vec![vec![ROp::ExistsFirst, ROp::Consult]], vec![vec![ROp::Consult, ROp::ExistsFirst]]]
         } else {
